@@ -214,8 +214,53 @@ def text_routes(man):
         o, c = body_after(core, i)
         b = texts(core, o, c)
         from_display = contains(b, ["format!", "(", '"{}"', ","]) and b.count("format!") == 1
+    INT_TYPES = ("i8", "i16", "i32", "i64", "i128", "isize", "u8", "u16", "u32", "u64", "u128", "usize", "f32")
+
+    def has_cast(toks, lo, hi):
+        return any(toks[j].text == "as" and toks[j + 1].text in INT_TYPES for j in range(lo, hi - 1))
+
+    # core.rs print: formats the Value with "{}" and does nothing numeric (no cast, no fract/trunc/round, no branch on the value)
+    print_display = False
+    print_no_cast = False
+    i = find_seq(core, ["fn", "print"])
+    if i >= 0:
+        o, c = body_after(core, i)
+        b = texts(core, o, c)
+        print_display = contains(b, ["println!", "(", '"{}"', ",", "vm", ".", "peek", "(", "0", ")", ")"]) and b.count("println!") == 1
+        print_no_cast = not has_cast(core, o, c) and not any(t in b for t in ("fract", "trunc", "round", "floor", "ceil", "to_bits", "Number"))
+    # the other text routes contain no numeric cast either
+    routes_no_cast = True
+    for toks, names in ((vm, ["format_string_impl"]), (core, ["string_from"])):
+        for nm in names:
+            k = find_seq(toks, ["fn", nm])
+            if k < 0:
+                routes_no_cast = False
+                continue
+            o, c = body_after(toks, k)
+            if has_cast(toks, o, c):
+                routes_no_cast = False
+    # Display of Value and of the containers (object.rs ObjVec / ObjTuple / ObjHashMap): elements go through "{}", no cast
+    disp_no_cast = True
+    val = toks_of("value.rs")
+    k = find_seq(val, ["impl", "fmt", "::", "Display", "for", "Value"])
+    if k < 0:
+        disp_no_cast = False
+    else:
+        o, c = body_after(val, k)
+        disp_no_cast = not has_cast(val, o, c)
+    obj = toks_of("object.rs")
+    for nm in ("ObjVec", "ObjTuple", "ObjHashMap"):
+        k = find_seq(obj, ["impl", "fmt", "::", "Display", "for", nm])
+        if k < 0:
+            disp_no_cast = False
+            continue
+        o, c = body_after(obj, k)
+        if has_cast(obj, o, c):
+            disp_no_cast = False
     d = {"interpolation_formats_every_part": every, "interpolation_never_edits_chunk": no_edit,
-         "format_string_uses_display": fmt_display, "string_from_uses_display": from_display}
+         "format_string_uses_display": fmt_display, "string_from_uses_display": from_display,
+         "print_uses_display": print_display, "print_has_no_numeric_code": print_no_cast,
+         "text_routes_have_no_numeric_cast": routes_no_cast, "display_impls_have_no_numeric_cast": disp_no_cast}
     man["c19_text_routes"] = d
     return d
 
@@ -253,7 +298,8 @@ def gen_numsrc(man):
               "(* compiler.rs interpolation / vm.rs format_string_impl / core.rs string_from: text only through Display at run time *)"]
     tr = text_routes(man)
     for k in ("interpolation_formats_every_part", "interpolation_never_edits_chunk", "format_string_uses_display",
-              "string_from_uses_display"):
+              "string_from_uses_display", "print_uses_display", "print_has_no_numeric_code",
+              "text_routes_have_no_numeric_cast", "display_impls_have_no_numeric_cast"):
         lines.append("Definition %s : bool := %s." % (k, coq_bool(tr[k])))
     lines.append("")
     return "\n".join(lines) + "\n"
